@@ -89,6 +89,34 @@ theorem c09_wrap_uses_first_cause (s : State) (e : Err) (ex : Exc) (h : s.fatal 
   | api e' => exact absurd rfl (hx e')
   | _ => simp [wrap, h]
 
+/-- **C09 / C04 (a ServerHello naming another device).**  On a Noise session still waiting for the
+handshake a ServerHello that names another device ends the session at once — closed, transport
+released, the readiness wait failed — with `bad name` as THE cause (nothing recorded before), so by
+`c09_wrap_uses_first_cause` the finish phase ends as `bad name` however it is woken: by the failed
+readiness wait, by the interrupt callback running first (the frame arrived before the task had
+begun to wait: the defect repaired by 6dd9259, where the library raised a raw TypeError), or by a
+cancellation of the caller in the same turn.  The same frame on a plaintext session is
+`requires encryption`. -/
+theorem c09_wrong_name (s : State) (ps : List Pkt) (h : s.fatal = none) :
+    (s.noise = true → s.ready = .pending →
+      (feed s (.wrongName :: ps)).fatal = some (.api .badName) ∧ (feed s (.wrongName :: ps)).st = .closed ∧
+      (feed s (.wrongName :: ps)).ready = .failed .badName ∧ (feed s (.wrongName :: ps)).transportOpen = false) ∧
+    (s.noise = false →
+      (feed s (.wrongName :: ps)).fatal = some (.api .requiresEncryption) ∧ (feed s (.wrongName :: ps)).st = .closed) := by
+  refine ⟨fun hn hr => ?_, fun hn => ?_⟩
+  · simp [feed, reportFatal, cleanup, aSetFatal, aReadyFail, aTrClose, h, hn, hr]
+  · simp [feed, reportFatal, cleanup, aSetFatal, aReadyFail, aTrClose, h, hn]
+
+/-- the frame arrives before the finish task has begun to wait for the handshake; the interrupt callback runs first -/
+example : (run { noise := true } [.callStart, .resolved true, .wakeStart, .sockDone true, .wakeStart, .callFinish, .connMade,
+    .data [.wrongName], .cbFinish, .lost, .wakeFinish]).finish = .done (.err .badName) := by decide +kernel
+/-- the caller cancels in the turn the frame arrives -/
+example : (run { noise := true } [.callStart, .resolved true, .wakeStart, .sockDone true, .wakeStart, .callFinish, .connMade,
+    .wakeFinish, .data [.wrongName], .cancelFinish, .wakeFinish, .cbFinish, .lost]).finish = .done (.err .badName) := by decide +kernel
+/-- a Noise device, a client configured for plaintext -/
+example : (run {} [.callStart, .resolved true, .wakeStart, .sockDone true, .wakeStart, .callFinish, .connMade,
+    .wakeFinish, .data [.wrongName], .wakeFinish]).finish = .done (.err .requiresEncryption) := by decide +kernel
+
 /-- **C09 (classified).**  The outcome of a connect phase is `ok` or a library error by construction
 of `wrap` (a non-library exception becomes UnhandledAPIConnectionError, a caller's cancellation
 APIConnectionCancelledError, an OSError SocketAPIError — or the class of the first fatal cause);
